@@ -630,6 +630,16 @@ def history_case(draw, tier):
                    "implicit": draw(st.booleans()), "counts": draw(counts_st(ns, no))}
         steps.append(stp)
     case["steps"] = steps
+    # the loss object may have been configured for ANOTHER tomography (same sizes, other testers) before: everything
+    # it reports afterwards must be about the current one
+    if draw(st.integers(0, 2)) == 0:
+        warm = {}
+        if "povms" in case:
+            warm["povms"] = [draw(gen.povm_case((case["shape"],), (c["m"], c["m"]))) for c in case["povms"]]
+        if "states" in case:
+            warm["states"] = [draw(gen.state_case((case["shape"],))) for _ in case["states"]]
+        warm["counts"] = draw(counts_st(ns, no))
+        case["warmup"] = warm
     return case
 
 
@@ -927,6 +937,15 @@ def run_history(case, ctx, impls):
     for impl in impls:
         cls, ocls = loss_classes(loss, impl)
         objs[impl] = (cls(qt.num_variables), ocls)
+    if case.get("warmup"):
+        alt = dict(case)
+        alt.update({k: v for k, v in case["warmup"].items() if k in ("povms", "states")})
+        qt_alt = make_qt(alt)
+        data0 = data_from_counts(case["warmup"]["counts"])
+        for impl in impls:
+            L, ocls = objs[impl]
+            L.set_from_standard_qtomography_option_data(qt_alt, make_option(ocls, "identity", None), data0, True, impl == "generic")
+        ctx.label("warmup:other-tomography")
     prev_key = None
     for i, step in enumerate(case["steps"]):
         data = data_from_counts(step["counts"])
